@@ -895,8 +895,8 @@ package anytype
 //@ extern strconv.FormatFloat pure
 //@   assigns  nothing
 //@   panics_iff false
-//@   ensures  fmt == 'e' ==> result == ffmtE(f)
-//@   ensures  fmt == 'f' ==> result == ffmtF(f)
+//@   ensures  fmt == 'e' && prec == -1 && bitSize == 64 ==> result == ffmtE(f)
+//@   ensures  fmt == 'f' && prec == -1 && bitSize == 64 ==> result == ffmtF(f)
 
 //@ extern strings.Contains pure
 //@   assigns  nothing
